@@ -33,7 +33,12 @@ def run(R):
     for o in accepted:
         by_klass.setdefault(o["klass"], []).append(o)
     order = sorted(by_klass, key=lambda c: (c != "names", c))
-    picked = []
+    # within the collision family, programs in which pavexc had to number an identifier come first
+    import re as _re
+    if "names" in by_klass:
+        by_klass["names"].sort(key=lambda o: -len(_re.findall(r"[A-Za-z]\d+\(app::|_\d+: app::", o["lib_rs"])))
+    picked = by_klass.get("names", [])[:2]
+    by_klass["names"] = by_klass.get("names", [])[2:]
     while any(by_klass.values()):
         for c in order:
             if by_klass[c]:
